@@ -56,3 +56,9 @@ chk("C18", "model_checking",
     "dateCreated cannot be fixed from the CLI: its value is masked after being checked to be RFC3339 within the invocation window. Runs as root (read-only file is writable).",
     "explicit-state BFS to a fixpoint over output-path states with the real binary as transition function and the library as reference model",
     "DESIGN.md §3 C18")
+
+chk("C05", "model_checking",
+    "Explicit-state search over JSON-LD surface rewrites: from the canonical serialisation of 4 base graphs, every sequence of <=2 (quick; <=3 thorough) rewrites drawn from 14 operators at every applicable position, deduplicated on the document text; each transition is validated to preserve the RDF dataset (json-gold N-Quads) and each state's verdict (conforms + result set with messages) under a 7-observer profile must equal the initial state's.",
+    "Differential oracle (no hand-written expected values); typed literals, blank nodes and remote contexts are outside the alphabet; the RDF-equivalence check trusts json-gold's ToRDF.",
+    "explicit-state depth-bounded search over rewrite sequences with text-level state deduplication and a differential oracle on the real implementation",
+    "DESIGN.md §3 C05")
